@@ -201,7 +201,13 @@ func genConn(rng *rand.Rand, seed int64) *Scenario {
 	switch rng.Intn(5) {
 	case 0: // the record changes hands during the outage
 		sc.ConnOnly = false
-		sc.Steps = append(sc.Steps, Step{At: 2*h + time.Duration(rng.Int63n(int64(g))), Kind: "extput", Key: "g", Bytes: `{"id":"intruder","token":"zzz"}`})
+		at := 2*h + time.Duration(rng.Int63n(int64(g)))
+		sc.Steps = append(sc.Steps, Step{At: at, Kind: "extput", Key: "g", Bytes: `{"id":"intruder","token":"zzz"}`})
+		if rng.Intn(2) == 0 {
+			// … and is given up again soon after: the instance loses its term, finds the key vacant and leads again (a new
+			// term) while the connection is still reported lost and the grace timer of the first term is still running
+			sc.Steps = append(sc.Steps, Step{At: at + h + time.Duration(rng.Int63n(int64(h))), Kind: "extdelete", Key: "g"})
+		}
 	case 1: // store partition of the leader during the outage
 		sc.ConnOnly = false
 		p := 2*h + time.Duration(rng.Int63n(int64(g)))
@@ -343,6 +349,14 @@ func genHealth(rng *rand.Rand, seed int64) *Scenario {
 			sc.Steps = append(sc.Steps, Step{At: 2*h + time.Duration(rng.Int63n(int64(time.Duration(ticks)*h)))/2*2 + 1, Kind: "extdelete", Key: "g"})
 		}
 		sc.NoOutside = false
+	}
+	if rng.Intn(4) == 0 {
+		// connection monitoring on top: reconnect notifications (each starts a verification of the leader's record) in the
+		// middle of runs of unhealthy results - the health count is the heartbeat loop's business alone
+		sc.Insts[0].ConnMon = true
+		for j := 0; j < 1+rng.Intn(4); j++ {
+			sc.Steps = append(sc.Steps, Step{At: 2*h + time.Duration(rng.Int63n(int64(time.Duration(ticks)*h)))/2*2 + 1, Kind: "reconnect", Inst: 1})
+		}
 	}
 	sc.End = time.Duration(ticks+12) * h
 	return sc
@@ -530,6 +544,11 @@ func genStopTimeout(rng *rand.Rand, seed int64) *Scenario {
 		st.Timeout = 0
 		st.CtxTimeout = time.Duration(200+rng.Intn(800)) * ms
 	}
+	if rng.Intn(4) == 0 {
+		// plain Stop on a leader whose promotion callback outlasts Stop's own patience (5 s)
+		sc.Insts[0].Promote = "slow"
+		st = Step{At: st.At, Kind: "stop", Inst: 1}
+	}
 	sc.Steps = append(sc.Steps, st)
 	if rng.Intn(2) == 0 {
 		sc.Steps = append(sc.Steps, Step{At: st.At + 6*time.Second, Kind: "stop", Inst: 1})
@@ -647,6 +666,36 @@ func genAckLostTakeover(rng *rand.Rand, seed int64) *Scenario {
 	return sc
 }
 
+// genAckLostHB: the acknowledgement of a leader's refresh is lost (the write was applied), so its next refresh presents a
+// stale revision and is refused; a takeover-enabled, higher-priority instance starts around that moment: whatever the old
+// leader does next, it must not touch the record again (C01: a refused refresh ends the term).
+func genAckLostHB(rng *rand.Rand, seed int64) *Scenario {
+	h := []time.Duration{200 * ms, 400 * ms}[rng.Intn(2)]
+	sc := &Scenario{Name: "acklosthb", Seed: seed, StoreTTL: 3 * h, Lat: map[int]LatSpec{0: {Min: 1 * ms, Max: h / 8}},
+		WatchMin: 1 * ms, WatchMax: h / 8, Sample: h / 2, NoOutside: true, MaxLat: 0}
+	a := baseInst(1, h)
+	a.Prio = rng.Intn(2)
+	if rng.Intn(3) == 0 {
+		a.Val = h + time.Duration(rng.Int63n(int64(h)))
+	}
+	b := baseInst(2, h)
+	b.Prio = 2
+	b.Takeover = true
+	sc.Insts = []InstSpec{a, b}
+	sc.MockErrs = rng.Intn(2) == 0
+	// A's k-th store operation is its k-th refresh (it starts alone: no watch loop)
+	k := 2 + rng.Intn(3)
+	sc.Plans = map[string]OpPlan{fmt.Sprintf("1:%d", k): {Pre: 3*ms + 1, Post: 4 * ms, Fault: "acklost", Err: []string{"timeout", "other", "noresponders"}[rng.Intn(3)]}}
+	// slow reads for A from then on: a second reader has time to slip in between two of them
+	sc.Lat[1] = LatSpec{Min: h / 16, Max: h / 4}
+	sc.Steps = append(sc.Steps, Step{At: 0, Kind: "start", Inst: 1})
+	// B arrives around A's next tick (tick k+1 is at about (k+1)·H after the acquisition)
+	at := time.Duration(k+1)*h + time.Duration(rng.Int63n(int64(h))) - h/4
+	sc.Steps = append(sc.Steps, Step{At: at, Kind: "start", Inst: 2})
+	sc.End = at + 8*h
+	return sc
+}
+
 // genLease: the hypotheses of C02 / C07 at their edge — latencies up to just below H/2, TTL ratios from 3 up,
 // heartbeat intervals that differ inside the group, arbitrary watch delays (optionally lost notifications),
 // and instances that start, stop (both calls, every option), and restart at arbitrary moments.
@@ -694,8 +743,9 @@ func genLease(rng *rand.Rand, seed int64) *Scenario {
 			case 0:
 				sc.Steps = append(sc.Steps, Step{At: at, Kind: "stop", Inst: i})
 			case 1:
-				// the application ends the run by cancelling the context it passed to Start
-				sc.Steps = append(sc.Steps, Step{At: at, Kind: "cancelctx", Inst: i})
+				// the application ends the run by cancelling the context it passed to Start (sometimes starting it again
+				// in the same breath)
+				sc.Steps = append(sc.Steps, Step{At: at, Kind: []string{"cancelctx", "cancelctx", "cancelstart"}[rng.Intn(3)], Inst: i})
 			default:
 				sc.Steps = append(sc.Steps, Step{At: at, Kind: "stopctx", Inst: i, Del: rng.Intn(3) > 0, Wait: rng.Intn(2) == 0,
 					Timeout: []time.Duration{0, 50 * ms, 2 * time.Second}[rng.Intn(3)]})
@@ -749,7 +799,7 @@ func genRestart(rng *rand.Rand, seed int64) *Scenario {
 	}
 	first := Step{At: t0 + d, Kind: "stop", Inst: 1}
 	if rng.Intn(5) == 0 {
-		first = Step{At: t0 + d, Kind: "cancelctx", Inst: 1}
+		first = Step{At: t0 + d, Kind: []string{"cancelctx", "cancelstart"}[rng.Intn(2)], Inst: 1}
 	} else if rng.Intn(2) == 0 {
 		first = Step{At: t0 + d, Kind: "stopctx", Inst: 1, Del: rng.Intn(2) == 0, Wait: rng.Intn(2) == 0,
 			Timeout: []time.Duration{0, h / 32, 2 * time.Second}[rng.Intn(3)]}
@@ -861,7 +911,7 @@ func genMix(rng *rand.Rand, seed int64) *Scenario {
 			sc.Steps = append(sc.Steps, Step{At: at, Kind: "partition", Inst: i, N: 1}, Step{At: at + time.Duration(rng.Int63n(int64(4*h)))/2*2 + 2, Kind: "partition", Inst: i, N: 0})
 		case 12:
 			if rng.Intn(2) == 0 {
-				sc.Steps = append(sc.Steps, Step{At: at, Kind: "cancelctx", Inst: i})
+				sc.Steps = append(sc.Steps, Step{At: at, Kind: []string{"cancelctx", "cancelstart"}[rng.Intn(2)], Inst: i})
 			} else {
 				sc.Steps = append(sc.Steps, Step{At: at, Kind: "watchfail", Inst: i, N: 1 + rng.Intn(6)})
 			}
